@@ -1238,6 +1238,20 @@ func (x *c06Gen) atom() string {
 		// field: equal-looking operands that mean different things
 		return x.renderText(c06Pick(x.u, []string{"", "c:", "content:", "regex:", "f:", "file:"}, "sameprefix"), x.last)
 	}
+	if x.u.pct(4, "namepair") {
+		// a regexp taken from a file name, bare (content or name) next to its
+		// content-only or name-only form, as a conjunction or a disjunction
+		re := x.fileRegexp()
+		a := x.renderText(c06Pick(x.u, []string{"", "regex:"}, "np1"), re)
+		b := x.renderText(c06Pick(x.u, []string{"c:", "content:", "f:"}, "np2"), re)
+		if x.u.pct(50, "nporder") {
+			a, b = b, a
+		}
+		if x.u.pct(40, "npor") {
+			return "( " + a + " or " + b + " )"
+		}
+		return a + " " + b
+	}
 	switch x.weighted("atom", 30, 14, 5, 13, 6, 7, 7, 6, 7, 5) {
 	case 0: // bare pattern
 		if x.u.pct(35, "re") {
